@@ -137,7 +137,11 @@ def make_valid(recipe, rng, small):
 
 
 INT32_VALUES = [-2 ** 31, -2, -1, 0, 1, 2 ** 31 - 1]
-VARINT_VALUES = [-2 ** 31, -2, -1, 0, 1, 2 ** 31 - 1, 2 ** 63 - 1, -2 ** 63]
+VARINT_VALUES = [-2 ** 31, -2, -1, 0, 1, 2 ** 31 - 1, 2 ** 63 - 1, -2 ** 63,
+                 # lengths for which `pos + size` (int64) or a 32-bit narrowing wraps around: a bounds check written as an
+                 # addition passes them
+                 2 ** 63 - 2, 2 ** 63 - 21, 2 ** 63 - 35, 2 ** 63 - 41, 2 ** 63 - 65, 2 ** 63 - 101, 2 ** 63 - 201,
+                 2 ** 31, 2 ** 32 - 1, 2 ** 32, 2 ** 32 + 5, 2 ** 62]
 VARINT_RAW = [b"\xff" * 9 + b"\x01", b"\xff" * 10 + b"\x01", b"\x80", b"\xff\xff\xff\xff\x0f", b"\x80\x80\x80\x80\x80\x80"]
 
 
